@@ -296,7 +296,7 @@ theorem printed_clause_lines_parse :
   exact ⟨c, by rw [templates_are_the_regexps e he]; exact hc, hf⟩
 
 /-- non-vacuity: `judge computes y as t > 0.9 ? sqrt(mood) : 0` through the regenerated `computesRe` -/
-example : run Gen.computesRe "judge computes y as t > 0.9 ? 1 : 0".toList
+example : run (byName "computesRe") "judge computes y as t > 0.9 ? 1 : 0".toList
     = some [some (0, 35), some (0, 5), some (15, 16), some (20, 35)] := by decide
 
 end clause_lines
